@@ -37,3 +37,15 @@ func Readdir(f *os.File, n int) ([]os.FileInfo, error) {
 	}
 	return out, err
 }
+
+// OpenFileHook, when set, is called before os.OpenFile in the instrumented code, on the
+// calling goroutine: waiting on a Sem there models a host that takes its time (a FIFO
+// nobody has opened for writing yet, a file server far away).
+var OpenFileHook func(path string, flag int)
+
+func OpenFile(name string, flag int, perm os.FileMode) (*os.File, error) {
+	if OpenFileHook != nil {
+		OpenFileHook(name, flag)
+	}
+	return os.OpenFile(name, flag, perm)
+}
